@@ -179,8 +179,10 @@ impl Scenario for Pairs {
                 make_of.insert((pfx, code), r);
                 match r {
                     Res::Ev(k, KeyState::Down) => {
-                        let ki = kidx(k).min(NKEYS - 1);
-                        env.cov.hit("make_image_set_x_phys_x_key", ((set as usize - 1) * 768 + pfx as usize * 256 + code as usize) * NKEYS + ki);
+                        let ki = kid(k); // identity as the crate numbers it
+                        if kidx(k) < NKEYS {
+                            env.cov.hit("make_image_set_x_phys_x_key", ((set as usize - 1) * 768 + pfx as usize * 256 + code as usize) * NKEYS + kidx(k));
+                        }
                         // two held keys are two keys
                         if let Some(other) = host_held.get(&ki) {
                             if *other != (pfx, code) {
@@ -251,9 +253,10 @@ impl Scenario for Pairs {
                     break 'ops;
                 }
                 if let (Res::Ev(k, KeyState::Down), Res::Ev(_, KeyState::Up)) = (make, r) {
-                    let ki = kidx(k).min(NKEYS - 1);
-                    host_held.remove(&ki);
-                    env.cov.hit("keys_seen_down_and_up", (set as usize - 1) * NKEYS + ki);
+                    host_held.remove(&kid(k));
+                    if kidx(k) < NKEYS {
+                        env.cov.hit("keys_seen_down_and_up", (set as usize - 1) * NKEYS + kidx(k));
+                    }
                 }
             }
             // quiescent point: the host's held set is the image of the typist's
@@ -264,7 +267,7 @@ impl Scenario for Pairs {
                     violation = Some(Violation {
                         oracle: "no-stuck-key-at-quiescence".into(),
                         op_index: i,
-                        detail: format!("typist holds nothing, host still believes {} down (from physical key {:?})", KEY_NAMES[*ki], p),
+                        detail: format!("typist holds nothing, host still believes key #{} down (from physical key {:?})", ki, p),
                     });
                     break 'ops;
                 }
@@ -362,13 +365,13 @@ fn set1_expressible(k: KeyCode) -> bool {
                     }
                     let (_, r, _) = decode_fresh(1, &encode_xt(pfx, code, false));
                     if let Res::Ev(k, KeyState::Down) = r {
-                        v[kidx(k)] = true;
+                        v[kid(k)] = true;
                     }
                 }
             }
             *c = Some(v);
         }
-        c.as_ref().unwrap()[kidx(k)]
+        c.as_ref().unwrap()[kid(k)]
     })
 }
 
